@@ -7,7 +7,7 @@ H=$(cd "$(dirname "$0")" && pwd)
 OUT=$1; SCEN=$2; shift 2
 mkdir -p "$OUT"
 INC="-I$H/platform -I$H/rt -I$REPO/platform/linux -I$REPO/platform/gcc -I$REPO/platform/posix -I$REPO/platform/x86_64 -I$REPO/public -I$REPO/internal"
-REN="-Dsyscall=vrt_syscall -Dclock_gettime=vrt_clock_gettime -Dmalloc=vrt_malloc -Dfree=vrt_free"
+REN="-Dsyscall=vrt_syscall -Dclock_gettime=vrt_clock_gettime -Dmalloc=vrt_malloc -Dfree=vrt_free -Dsched_yield=vrt_sched_yield"
 CF="-O1 -g -w -pthread -fsanitize=thread -fno-omit-frame-pointer"
 SRCS="internal/common.c internal/counter.c internal/cv.c internal/debug.c internal/dll.c internal/mu.c internal/mu_wait.c internal/note.c internal/once.c internal/sem_wait.c internal/time_internal.c internal/wait.c platform/posix/src/nsync_panic.c platform/posix/src/per_thread_waiter.c platform/posix/src/time_rep.c platform/linux/src/nsync_semaphore_futex.c"
 if [ ! -f "$OUT/libnsync_vrt.a" ] || [ -n "$VRT_REBUILD" ]; then
